@@ -49,15 +49,30 @@ Qed.
 Lemma ev_eqb_spec a b : ev_eqb a b = true <-> a = b.
 Proof. apply pair_eqb_spec; [apply nat_eqb_spec | apply gev_eqb_spec]. Qed.
 
-Lemma obs_eqb_spec a b : obs_eqb a b = true <-> a = b.
+Lemma aobs_eqb_spec a b : aobs_eqb a b = true <-> a = b.
 Proof.
-  destruct a as [l1 s1 d1], b as [l2 s2 d2]; unfold obs_eqb; simpl; split; intro H.
-  - apply andb_true_iff in H as [H H3]. apply andb_true_iff in H as [H1 H2].
-    apply (list_eqb_spec _ ev_eqb_spec) in H1. apply (proj1 (bool_eqb_spec _ _)) in H2. apply (proj1 (bool_eqb_spec _ _)) in H3. congruence.
-  - injection H as -> -> ->. repeat (apply andb_true_iff; split).
+  destruct a as [l1 t1 s1 d1 w1], b as [l2 t2 s2 d2 w2]; unfold aobs_eqb; simpl; split; intro H.
+  - apply andb_true_iff in H as [H H5]. apply andb_true_iff in H as [H H4]. apply andb_true_iff in H as [H H3].
+    apply andb_true_iff in H as [H1 H2].
+    apply (list_eqb_spec _ ev_eqb_spec) in H1. apply (list_eqb_spec _ (list_eqb_spec _ gev_eqb_spec)) in H2.
+    apply (proj1 (bool_eqb_spec _ _)) in H3. apply (proj1 (bool_eqb_spec _ _)) in H4.
+    apply (list_eqb_spec _ bool_eqb_spec) in H5. congruence.
+  - injection H as -> -> -> -> ->. repeat (apply andb_true_iff; split).
     + apply (list_eqb_spec _ ev_eqb_spec); reflexivity.
+    + apply (list_eqb_spec _ (list_eqb_spec _ gev_eqb_spec)); reflexivity.
     + apply bool_eqb_spec; reflexivity.
     + apply bool_eqb_spec; reflexivity.
+    + apply (list_eqb_spec _ bool_eqb_spec); reflexivity.
+Qed.
+
+Lemma obs_eqb_spec a b : obs_eqb a b = true <-> alpha a = alpha b.
+Proof. apply aobs_eqb_spec. Qed.
+
+(* where every thread is well-formed nothing is forgotten *)
+Lemma alpha_exact a b : forallb (fun x => x) (o_wf a) = true -> alpha a = alpha b -> a = b.
+Proof.
+  destruct a as [l1 s1 d1 w1], b as [l2 s2 d2 w2]. unfold alpha. simpl. intros Hw H.
+  injection H as H1 _ H3 H4 H5. subst. rewrite Hw in H1. subst. reflexivity.
 Qed.
 
 (* ====================================================================================== *)
@@ -636,8 +651,9 @@ Proof.
         by (repeat split; simpl; auto).
       simpl strace. simpl ptrace. simpl expected.
       destruct (memb k fl); simpl; do 3 f_equal; apply (IH Out _ _ _ Hwf HR').
-    + assert (HR' : Rel p f st) by (repeat split; auto).
-      simpl. destruct (memb k fl); simpl; do 3 f_equal; apply (IH p _ _ _ Hwf HR').
+    + destruct p; try discriminate.
+      assert (HR' : Rel Out f st) by (split; [exact Hn | split; [exact Hg | exact Hp]]).
+      simpl. destruct (memb k fl); simpl; do 3 f_equal; apply (IH Out _ _ _ Hwf HR').
     + assert (HR' : Rel p f st) by (repeat split; auto).
       simpl. destruct (memb k fl); simpl; do 3 f_equal; apply (IH p _ _ _ Hwf HR').
     + assert (HR' : Rel p f st) by (repeat split; auto).
@@ -1170,7 +1186,7 @@ Proof.
     simpl. f_equal. apply (IH (Post n)); [exact Hwf|]. simpl. congruence.
   - destruct g; simpl.
     + destruct p; try discriminate. apply (IH Out); auto.
-    + apply (IH p); auto.
+    + destruct p; try discriminate. apply (IH Out); auto.
     + apply (IH p); auto.
     + apply (IH p); auto.
     + apply (IH p); auto.
